@@ -3,6 +3,10 @@
 # Verus unit: unit name, template (relative to /verif/specs), rlimit, canary?
 # `defines` select @ifdef sections of the template.
 
+DVBS2_CODES = ["R1_4", "R1_3", "R2_5", "R1_2", "R3_5", "R2_3", "R3_4", "R4_5", "R5_6", "R8_9", "R9_10",
+               "R1_4short", "R1_3short", "R2_5short", "R1_2short", "R3_5short", "R2_3short", "R3_4short",
+               "R4_5short", "R5_6short", "R8_9short"]
+
 PROPS = {
     "C17": {
         "level": "proof",
@@ -24,11 +28,23 @@ PROPS = {
         "title": "DVB-S2 parity-check matrices conform to ETSI EN 302 307-1",
         "verus": [
             {"unit": "dvbs2_dims", "template": "dvbs2/unit_dims.rs.in", "rlimit": 60, "canary": True},
+            {"unit": "dvbs2_h", "template": "dvbs2/unit_h.rs.in", "rlimit": 100, "canary": True},
+        ] + [
+            # one unit per code: the whole real `addresses()` body is verified, the
+            # postcondition is asked for this code's arm only (shape, range, no repeats)
+            {"unit": f"dvbs2_addr_{c}", "template": "dvbs2/unit_addr.rs.in", "rlimit": 400, "threads": 1,
+             "defines": ["RANGE", "NODUP"], "subst": {"CODE": c},
+             "extra": ["--verify-function", "Code::addresses", "--verify-root"],
+             "canary": c == "R8_9short"}
+            for c in DVBS2_CODES
         ],
         "kani": {"quick": [], "thorough": []},
         "witness": "c06",
         "assumptions": [
             "the standard's tables (n, k, q, degree profile) as transcribed in specs/dvbs2/std.rs.in",
+            "SparseMatrix::new and SparseMatrix::insert_col trusted (external_body) with the contracts of specs/sparse",
+            "Borrow<usize> for usize is the identity (axiom_bval_usize)",
+            "Code::addresses() returns the same table on every call (uninterpreted addr_table); its shape/range/no-repeat facts are proved per code",
             "usize is 64-bit",
         ],
     },
